@@ -156,7 +156,11 @@ pub fn replay_json(def: &PropDef, scen: &Scen, seed: u64, idx: u64, choices: &[u
 pub fn minimise(f: ScenFn, choices: Vec<u32>, key: &str, budget: usize) -> (Vec<u32>, usize) {
     let mut best = choices;
     let mut tries = 0usize;
+    // re-executions of a run that ends at the step cap are slow: the budget is also bounded in wall-clock time
+    // (only the amount of shrinking depends on it, never the verdict; the replay file records what was reached)
+    let started = std::time::Instant::now();
     let same = |list: &[u32], tries: &mut usize| -> Option<usize> {
+        if started.elapsed().as_secs() >= 45 { *tries = (*tries).max(budget + 1000); return None; }
         *tries += 1;
         let out = exec(f, Chooser::replay(list.to_vec()), false, false);
         match out.result {
